@@ -65,6 +65,12 @@ def cex_to_text(cex):
         lines.append("op " + " ".join(str(x) for x in op))
     for fl in cex.get("files", []):
         lines.append("file " + " ".join(str(x) for x in fl))
+    if "block_size" in cex:
+        lines.append("block_size %d" % cex["block_size"])
+    for e in cex.get("entries", []):
+        lines.append("entry " + " ".join(str(x) for x in e))
+    for l in cex.get("lookups", []):
+        lines.append("lookup " + " ".join(str(x) for x in l))
     return "\n".join(lines) + "\n"
 
 
@@ -108,7 +114,24 @@ def family_key_range(seed):
     ]
 
 
+def family_table_get(seed):
+    a = lambda s: s.encode().hex() if s else "-"
+    fam = []
+    # one-entry file, bound below the only version (index seek runs off the end)
+    fam.append({"oracle": "table_get", "block_size": 4096, "entries": [[a("k"), 10, 1, a("v10")]], "lookups": [[a("k"), 5], [a("k"), 10], [a("k"), 11], [a("j"), 99], [a("l"), 99]]})
+    # many versions of one key crossing block boundaries, tombstones, shortened separators
+    ents = []
+    for u in ["apple", "cherry", "k", "zz"]:
+        for s_ in (60, 50, 40, 30):
+            ents.append([a(u), s_, 0 if (u == "cherry" and s_ == 50) else 1, a("%s@%d" % (u, s_) + "x" * 40)])
+    looks = [[a(u), s_] for u in ["apple", "avocado", "cherry", "k", "zz", "zzz", "a"] for s_ in (70, 60, 55, 45, 30, 29, 1)]
+    for bs in (1, 64, 150, 4096):
+        fam.append({"oracle": "table_get", "block_size": bs, "entries": ents, "lookups": looks})
+    return fam
+
+
 FAMILIES = [
+    ("U10::implTable::get", family_table_get),
     ("U05::", family_log_reader),
     ("U04::", family_log_reader),
     ("U14::implFileMetadata::get_key_range_for_files", family_key_range),
